@@ -157,6 +157,32 @@ Theorem C06_run_frames_outside : forall (V : Type) (dflt zero : V) S input frame
 Proof. exact @run_frames_outside. Qed.
 Print Assumptions C06_run_frames_outside.
 
+(* rows that no frame's solver owns, that are not exogenized and are not unanticipated-shock rows (measurement
+   variables, exogenous variables, parameters) keep their input values through the whole frame loop *)
+Theorem C06_rows_left_as_input : forall (V : Type) (dflt zero : V) S input frames oracles main q c,
+  zmem q (s_uqids S) = false ->
+  Forall (fun f => (forall c', touched (frame_wrt S f) (frame_term S f) q c' = false)
+                   /\ (forall c', ~ In (q, c') (frame_exog S f))) frames ->
+  get dflt (snd (run_frames dflt zero S input main frames oracles)) q c = get dflt main q c.
+Proof. exact @run_frames_row_untouched. Qed.
+Print Assumptions C06_rows_left_as_input.
+
+(* every entry of the Jacobian map lies in the stacked row of (its equation, its column index) -- the row of the
+   residual of that equation in that column -- and in the column of the unknown Token(qid, shift + column) *)
+Theorem C06_jacobian_map_rows : forall wrt_tokens cols lhs r c rr rc,
+  In (r, c, rr, rc) (jac_map wrt_tokens cols lhs) ->
+  exists de toks tok col,
+    nth_error wrt_tokens de = Some toks /\ In tok toks /\ nth_error cols (Z.to_nat rc) = Some col /\ 0 <= rc
+    /\ r = stack_index (Z.of_nat (length wrt_tokens)) (0 + Z.of_nat de) rc
+    /\ index_last (fst tok, snd tok + col) lhs = Some c.
+Proof. intros wrt_tokens cols lhs r c rr rc. exact (jac_map_from_spec _ wrt_tokens 0 0 cols lhs r c rr rc). Qed.
+Print Assumptions C06_jacobian_map_rows.
+
+Theorem C06_index_last_spec : forall s l r, index_last s l = Some r ->
+  0 <= r < Z.of_nat (length l) /\ nth (Z.to_nat r) l (r, r) = s.
+Proof. exact index_last_spec. Qed.
+Print Assumptions C06_index_last_spec.
+
 (* 7. linear models.  For affine equations and an affine terminal operator (identity, or the first-order
       continuation of the last columns), with the first-order path P as contract from C01
       (it satisfies every equation in every simulated column with leads read through the terminal operator, and it
